@@ -53,6 +53,10 @@ impl Definition {
         self.usages.insert(location);
     }
 
+    pub fn clear_usages(&mut self) {
+        self.usages.clear();
+    }
+
     pub fn contains(&self, tree: &ParseTree, path: &Path, pos: LineCol) -> bool {
         if let Some(loc) = &self.location {
             if span_contains(loc.span, tree, path, pos) {
@@ -164,6 +168,12 @@ impl Analysis {
                 pos += id.len() as u64 + 1; // add 1 for the dot separator in the path
             }
         }
+    }
+
+    /// Forgets all usages. Every pass records them again, and a path may resolve to a different symbol
+    /// once the symbols that are defined further down are known.
+    pub fn clear_usages(&mut self) {
+        self.definitions.values_mut().for_each(|d| d.clear_usages());
     }
 
     pub fn find<P: Into<PathBuf>>(
